@@ -187,6 +187,71 @@ def run(repo: Repo, ctx, grammar_modules=None, rule_prefix='C01',
                        f'{sites[0][0]}:{sites[0][1]}',
                        sample=f'read by visit_{nm}')
 
+    # ---- R2 per production: under the constants a grammar production
+    # fixes, the visitor path taken still reads every field that production
+    # sets to a non-constant value
+    if only_rules is None or 'R2' in only_rules:
+        n_sites = 0
+        for mn in gm:
+            m = repo.modules.get(mn)
+            if m is None:
+                continue
+            for c in ast.walk(m.tree):
+                if not isinstance(c, ast.Call):
+                    continue
+                q = V._family_class(repo, m, c.func, QLAST)
+                if not q or base not in repo.mro(q):
+                    continue
+                nm = q.split('.')[-1]
+                v = gen.methods.get('visit_' + nm)
+                if v is None:
+                    continue
+                consts: Dict[str, object] = {}
+                for f, (_own, ann) in repo.class_fields(q).items():
+                    if ann.value is not None:
+                        if isinstance(ann.value, ast.Constant):
+                            consts[f] = ann.value.value
+                        elif isinstance(ann.value, ast.Call) and 'field' \
+                                in norm(ann.value.func):
+                            consts[f] = []
+                nonconst = []
+                for k in c.keywords:
+                    if not k.arg:
+                        continue
+                    if isinstance(k.value, ast.Constant):
+                        consts[k.arg] = k.value.value
+                    else:
+                        consts.pop(k.arg, None)
+                        if _is_static_name(k.value):
+                            continue     # enum member / module constant
+                        nonconst.append(k.arg)
+                if not nonconst:
+                    continue
+                n_sites += 1
+                rd = _reads_under(fr, v, v.params()[1], consts)
+                for f in nonconst:
+                    if ('*', f) in FIELD_EXCEPTIONS or (nm, f) in \
+                            FIELD_EXCEPTIONS:
+                        continue
+                    if f not in repo.class_fields(q):
+                        continue
+                    ok = f in rd
+                    if ok:
+                        continue
+                    fixed = {k_: v_ for k_, v_ in consts.items()
+                             if any(kk.arg == k_ for kk in c.keywords)}
+                    ctx.ob(R('R2'), f'{nm}.{f}@production', False,
+                           f'the production at {m.rel()}:{c.lineno} builds '
+                           f'{nm} with {f} set and {fixed} fixed; on the '
+                           f'path visit_{nm} takes for those constants it '
+                           f'never reads {f}: this form loses the clause '
+                           f'when printed', f'{m.rel()}:{c.lineno}')
+        ctx.ob(R('R2'), 'per-production-sites', n_sites >= (
+            200 if len(gm) > 3 else 20),
+            f'only {n_sites} grammar construction sites evaluated', '',
+            sample=f'{n_sites} productions partially evaluated against '
+                   f'their visitor')
+
     if rule_prefix != 'C01':
         return
 
@@ -201,6 +266,53 @@ def run(repo: Repo, ctx, grammar_modules=None, rule_prefix='C01',
                f'{name}: literal brackets do not balance on the path '
                f'{detail}', f.loc, sample=detail if not ok else 'balanced',
                nontrivial=detail != 'no brackets')
+
+    # ---- R6 contexts in which parentheses are omitted -------------------------
+    # A compound expression may drop its parentheses only in reviewed parent
+    # contexts (top level / statement level).  Dropping them under another
+    # operator changes how the text re-parses.
+    ctx.floor('C01.R6', 2)
+    OMIT_OK = {
+        '_needs_parentheses': {
+            'DDL': 'statement inside a DDL command body',
+            'ExplainStmt': 'the query of ANALYZE is a statement',
+            'ForQuery': 'non-UNION FOR body is a statement',
+        },
+        'visit_IfElse': {
+            'SelectQuery': 'only the implicit top-level SELECT '
+                           '(parent.implicit and no grand-parent)',
+        },
+    }
+    for name, f in sorted(gen.methods.items()):
+        targets = []
+        for n in walk_no_nested(f.node):
+            if isinstance(n, ast.Assign) and len(n.targets) == 1 and \
+                    norm(n.targets[0]).lower().startswith('parenthes'):
+                targets.append(n.value)
+        if name == '_needs_parentheses':
+            targets += [r.value for r in walk_no_nested(f.node)
+                        if isinstance(r, ast.Return) and r.value is not None]
+        if not targets:
+            continue
+        omit = set()
+        for t in targets:
+            _omission_classes(t, False, omit)
+        allowed = OMIT_OK.get(name, {})
+        for cls in sorted(omit):
+            ok = cls in allowed
+            ctx.ob('C01.R6', f'{name}:omits-parens-under={cls}', ok,
+                   f'{name} omits the parentheses of a compound expression '
+                   f'when its parent is a {cls}: nested under another '
+                   f'expression the text re-parses with a different '
+                   f'grouping (not in the reviewed list of statement-level '
+                   f'contexts)', f.loc, sample=allowed.get(cls))
+    ctx.ob('C01.R6', 'operators-always-parenthesised',
+           all(_always_parens(gen.methods[m_]) for m_ in (
+               'visit_BinOp', 'visit_IsOp', 'visit_TypeOp')
+               if m_ in gen.methods),
+           'a binary-operator visitor no longer wraps its output in '
+           'parentheses unconditionally', gen.loc,
+           sample='BinOp / IsOp / TypeOp: ( left OP right )')
 
     # ---- R4 (shared with C18) --------------------------------------------------
     from . import c18
@@ -256,6 +368,121 @@ def run(repo: Repo, ctx, grammar_modules=None, rule_prefix='C01',
                f'the printer writes `{w.upper()}` as a keyword, but the '
                f'lexer has no such keyword: the text re-parses as an '
                f'identifier or is rejected', loc, sample='keyword')
+
+
+def _is_static_name(e: ast.AST) -> bool:
+    d = dotted(e)
+    return d is not None and not d.startswith(('kids', 'self'))
+
+
+_UNK = object()
+
+
+def _tv(test, p, consts):
+    """three-valued evaluation of a visitor test under known constants"""
+    if isinstance(test, ast.UnaryOp) and isinstance(test.op, ast.Not):
+        v = _tv(test.operand, p, consts)
+        return _UNK if v is _UNK else (not v)
+    if isinstance(test, ast.BoolOp):
+        vals = [_tv(v, p, consts) for v in test.values]
+        if isinstance(test.op, ast.And):
+            if any(v is False for v in vals):
+                return False
+            if all(v is True for v in vals):
+                return True
+            return _UNK
+        if any(v is True for v in vals):
+            return True
+        if all(v is False for v in vals):
+            return False
+        return _UNK
+    if isinstance(test, ast.Attribute) and isinstance(
+            test.value, ast.Name) and test.value.id == p:
+        if test.attr in consts:
+            return bool(consts[test.attr])
+        return _UNK
+    if isinstance(test, ast.Compare) and len(test.ops) == 1 and isinstance(
+            test.left, ast.Attribute) and isinstance(
+                test.left.value, ast.Name) and test.left.value.id == p \
+            and isinstance(test.comparators[0], ast.Constant):
+        f = test.left.attr
+        if f in consts:
+            c = test.comparators[0].value
+            v = consts[f]
+            op = test.ops[0]
+            if isinstance(op, ast.Is):
+                return v is c
+            if isinstance(op, ast.IsNot):
+                return v is not c
+            if isinstance(op, ast.Eq):
+                return v == c
+            if isinstance(op, ast.NotEq):
+                return v != c
+    return _UNK
+
+
+def _reads_under(fr, fn, p, consts) -> Set[str]:
+    """Fields of parameter p read on the paths of fn consistent with the
+    given field constants (helpers the node is passed to are taken
+    path-insensitively)."""
+    out: Set[str] = set()
+
+    def expr(e):
+        for n in ast.walk(e):
+            if isinstance(n, ast.Attribute) and isinstance(
+                    n.value, ast.Name) and n.value.id == p:
+                out.add(n.attr)
+            if isinstance(n, ast.Call):
+                if dotted(n.func) in ('getattr', 'hasattr') and len(
+                        n.args) >= 2 and isinstance(n.args[0], ast.Name) \
+                        and n.args[0].id == p and const_str(n.args[1]):
+                    out.add(const_str(n.args[1]))
+                pos = [i for i, a in enumerate(n.args)
+                       if isinstance(a, ast.Name) and a.id == p]
+                if pos:
+                    t = fr.resolve_callee(fn, n)
+                    if t is not None:
+                        ps = t.params()
+                        off = 1 if t.cls is not None else 0
+                        for i in pos:
+                            if i + off < len(ps):
+                                out.update(fr.reads(t, ps[i + off]))
+                    for a in n.args:
+                        if const_str(a):
+                            out.add(const_str(a))
+
+    def block(stmts):
+        for st in stmts:
+            if isinstance(st, ast.If):
+                expr(st.test)
+                v = _tv(st.test, p, consts)
+                if v is True:
+                    block(st.body)
+                elif v is False:
+                    block(st.orelse)
+                else:
+                    block(st.body)
+                    block(st.orelse)
+            elif isinstance(st, (ast.For, ast.While)):
+                expr(st.iter if isinstance(st, ast.For) else st.test)
+                block(st.body)
+                block(st.orelse)
+            elif isinstance(st, ast.With):
+                for i in st.items:
+                    expr(i.context_expr)
+                block(st.body)
+            elif isinstance(st, ast.Try):
+                block(st.body)
+                for h in st.handlers:
+                    block(h.body)
+                block(st.orelse)
+                block(st.finalbody)
+            elif isinstance(st, (ast.FunctionDef, ast.AsyncFunctionDef)):
+                block(st.body)
+            else:
+                expr(st)
+    block(fn.node.body)
+    return out
 
 
 # ----------------------------------------------------------------------
@@ -405,3 +632,37 @@ def bracket_balance(f):
         if r is not None and not r[0]:
             return False, f'closure {sub.name}: {r[1]}'
     return True, f'{2 ** n} valuations of {n} conditions'
+
+
+def _omission_classes(e, negated: bool, out: Set[str]) -> None:
+    """classes tested with isinstance(<parent...>, C) in positions where the
+    test being true makes the `parenthesise` value false."""
+    if isinstance(e, ast.UnaryOp) and isinstance(e.op, ast.Not):
+        _omission_classes(e.operand, not negated, out)
+    elif isinstance(e, ast.BoolOp):
+        for v in e.values:
+            _omission_classes(v, negated, out)
+    elif isinstance(e, ast.Call) and dotted(e.func) == 'isinstance' and \
+            len(e.args) == 2 and 'parent' in norm(e.args[0]):
+        if negated:
+            t = e.args[1]
+            for x in (t.elts if isinstance(t, ast.Tuple) else [t]):
+                out.add(norm(x).split('.')[-1])
+    elif isinstance(e, ast.Call) and norm(e.func) == \
+            'self._needs_parentheses':
+        pass
+
+
+def _always_parens(f) -> bool:
+    body = [st for st in f.node.body if not (isinstance(st, ast.Expr)
+            and isinstance(st.value, ast.Constant))]
+    def lit(st, ch):
+        return isinstance(st, ast.Expr) and isinstance(
+            st.value, ast.Call) and norm(st.value.func) == 'self.write' \
+            and len(st.value.args) == 1 and isinstance(
+                st.value.args[0], ast.Constant) and st.value.args[0].value \
+            == ch
+    opens = [i for i, st in enumerate(body) if lit(st, '(')]
+    closes = [i for i, st in enumerate(body) if lit(st, ')')]
+    return bool(opens) and bool(closes) and opens[0] <= 2 and \
+        closes[-1] == len(body) - 1
